@@ -268,8 +268,29 @@ def main(tier: str) -> int:
             got = solo.solo_bytes(n)
             if got != base[n]:
                 run.violation({"mode": "prior-history", "stream": n}, f"bytes of {n} depend on {k} streams created and abandoned earlier", {"workload": n, "prior": k})
+    # prior history on the namespace side: other sinks bind prefixes, other streams with declarations are parsed
+    before = solo.digests()
+    gs = terms.generic_classes()
+    for k in range(3):
+        other = gs.GenericStatementSink()
+        other.bind(f"foaf{k}", gs.IRI(f"http://xmlns.com/foaf/{k}/"))
+        other.bind("", gs.IRI("http://default.example/"))
+    impl.parse("generic", solo.namespace_bytes(), "to_graph")
+    fresh_sink = gs.GenericStatementSink()
+    runs += 1
+    if list(fresh_sink.namespaces):
+        run.violation({"mode": "prior-history", "clause": "new-sink-not-empty"}, f"a newly created GenericStatementSink already carries namespaces {list(fresh_sink.namespaces)[:3]}", {})
+    no_ns = impl.parse("generic", solo.solo_bytes("A"), "to_graph")
+    runs += 1
+    if any(it[0] == "ns" for it in no_ns):
+        run.violation({"mode": "prior-history", "clause": "parser-output-carries-foreign-namespaces"},
+                      "parsing a stream WITHOUT namespace declarations returned a sink with namespaces bound by other sinks/parsers", {})
+    after = solo.digests()
+    for k in before:
+        if before[k] != after[k]:
+            run.violation({"mode": "prior-history", "workload": k}, f"bytes of workload {k} changed after unrelated sinks bound prefixes and unrelated streams were parsed", {"workload": k})
     # hash seeds / processes
-    want = solo.digests()
+    want = before
     seeds = ["0", "1", "4242", "random"] if tier == "quick" else ["0", "1", "2", "3", "7", "99", "4242", "31337", "random", "random", "random", "random"]
     for hs in seeds:
         e = dict(os.environ, PYTHONHASHSEED=hs)
